@@ -36,6 +36,7 @@ def run(tier, seed):
                        'and exactly these lists are handed to the history builder. Bounded (labelled): summary / node_status / '
                        'get_statuses / t,S,I,R against brute-force head counts on exhaustive short histories; for every simulator and 3 seeds the summary of the full-data '
                        'object equals the plain arrays.')
-    rep.assumptions += ['M: "summary(histories) == arrays" in general is the composition of the handler contracts (one row per recorded change) with the proved transform; only checked natively here',
+    rep.assumptions += ['ASSUMED callee (not verified): the SIS branch of _transform_to_node_history_ is an opaque call in the Gillespie_SIS full-data unit (a contract for it was written but its inner pop(0) loop did not discharge; DESIGN 9.11)',
+                        'M: "summary(histories) == arrays" in general is the composition of the handler contracts (one row per recorded change) with the proved transform; only checked natively here',
                         'the SIS branch of _transform_to_node_history_ (pop(0) loops) and summary() are decided only by the bounded native stand-ins']
     return rep, util.native_replayer
